@@ -289,7 +289,7 @@ pub fn run(o: &Opts) {
             let (m1, m2, t) = (others[0], others[1], others[2]);
             // a -> m1 -> t and a -> m2 -> t on the same day: a genuine tie with different products
             let db = format!(
-                "P 2020/01/11 00:00:00 {a} {r1} {m1}\nP 2020/01/11 00:00:00 {m1} {r2} {t}\nP 2020/01/11 00:00:00 {a} {r3} {m2}\nP 2020/01/11 00:00:00 {m2} {r4} {t}\n",
+                "P 2020/01/11 {a} {r1} {m1}\nP 2020/01/11 {m1} {r2} {t}\nP 2020/01/11 {a} {r3} {m2}\nP 2020/01/11 {m2} {r4} {t}\n",
                 a = a, m1 = m1, m2 = m2, t = t, r1 = 80 + r.below(5), r2 = "1.25", r3 = 50 + r.below(5), r4 = 4
             );
             let ledger = format!(
